@@ -12,7 +12,6 @@ import (
 
 type (
 	Once      = sync.Once
-	Pool      = sync.Pool
 	WaitGroup = sync.WaitGroup
 	Map       = sync.Map
 	Cond      = sync.Cond
@@ -85,3 +84,67 @@ type rlocker RWMutex
 
 func (r *rlocker) Lock()   { (*RWMutex)(r).RLock() }
 func (r *rlocker) Unlock() { (*RWMutex)(r).RUnlock() }
+
+// Pool is a deterministic LIFO free list with the interface of sync.Pool. All
+// pools are emptied when a controlled execution starts, so what Get returns depends
+// only on the Put/Get history of that execution (sync.Pool's per-P caches and GC
+// interaction would make buffer reuse irreproducible).
+type Pool struct {
+	New func() interface{}
+
+	mu    sync.Mutex
+	items []interface{}
+	reg   bool
+}
+
+var (
+	poolsMu sync.Mutex
+	pools   []*Pool
+)
+
+func (p *Pool) Get() interface{} {
+	p.mu.Lock()
+	if !p.reg {
+		p.reg = true
+		poolsMu.Lock()
+		pools = append(pools, p)
+		poolsMu.Unlock()
+	}
+	if n := len(p.items); n > 0 {
+		x := p.items[n-1]
+		p.items = p.items[:n-1]
+		p.mu.Unlock()
+		return x
+	}
+	p.mu.Unlock()
+	if p.New != nil {
+		return p.New()
+	}
+	return nil
+}
+
+func (p *Pool) Put(x interface{}) {
+	if x == nil {
+		return
+	}
+	p.mu.Lock()
+	if !p.reg {
+		p.reg = true
+		poolsMu.Lock()
+		pools = append(pools, p)
+		poolsMu.Unlock()
+	}
+	p.items = append(p.items, x)
+	p.mu.Unlock()
+}
+
+// ResetPools empties every pool (called at the start of each controlled execution).
+func ResetPools() {
+	poolsMu.Lock()
+	defer poolsMu.Unlock()
+	for _, p := range pools {
+		p.mu.Lock()
+		p.items = nil
+		p.mu.Unlock()
+	}
+}
